@@ -351,9 +351,12 @@ def run_history(case):
                 st = vars_[op[1]]
                 kind = B.LEAF_KINDS.get(type(st).__name__)
                 spec = w.leaves[op[2]]
-                if kind is None or kind in ("base", "parsed") or kind != spec[0]:
+                if kind is None or kind != spec[0]:      # refused: the object is of another class
                     pool[op[2]].pop(0)
                     obs.append("bad")
+                elif kind not in SETTERS:                 # SubsetState / ParsedSubsetState: nothing to set
+                    pool[op[2]].pop(0)
+                    obs.append(None)
                 else:
                     fresh = pool[op[2]].pop(0)
                     if t == "setattr":
@@ -452,15 +455,13 @@ class HistFamily(Family):
 
     def signature(self, case, pyout, res):
         prog = case[3]
-        muts = sorted({op[0] if op[0] != "datamut" else "datamut-" + op[1] for op in prog if op[0] in ("setattr", "editparam", "datamut")})
-        kinds = sorted({case[2][op[2]][0] for op in prog if op[0] in ("setattr", "editparam")})
-        leafmemo = None
-        if len(kinds) == 1:
-            leafmemo = kinds[0] in LEAF_MEMO
-        return {"mut": muts[0] if len(muts) == 1 else ("none" if not muts else "mixed"),
-                "kind": kinds[0] if len(kinds) == 1 else ("none" if not kinds else "mixed"),
-                "leafmemo": leafmemo,
-                "mor": any(op[0] == "mor" for op in prog)}
+        kinds = {case[2][op[2]][0] for op in prog if op[0] in ("setattr", "editparam")}
+        memo = {k in LEAF_MEMO for k in kinds}
+        return {"setattr": any(op[0] == "setattr" for op in prog),
+                "editparam": any(op[0] == "editparam" for op in prog),
+                "parammut": any(op[0] in ("setattr", "editparam") for op in prog),
+                "datamut": sorted({op[1] for op in prog if op[0] == "datamut"}),
+                "leafmemo": (True in memo) if len(memo) == 1 else ("none" if not memo else "mixed")}
 
     def describe(self, case):
         return {"data": case[0], "views": case[1], "leaves": case[2], "prog": case[3]}
